@@ -21,7 +21,8 @@ VARIABLES c, st
 vars == <<c, st>>
 
 \* (the last two end / begin with a character whose final byte, 0xA0, is not whitespace although U+00A0 is)
-TX == << <<32>>, <<32, 97, 32>>, <<10>>, <<97>>, <<97, 32>>, <<32, 97>>, <<97, 195, 160>>, <<195, 160, 32>> >>
+\* (the last one: a control character that is no white space - ESC - between blanks)
+TX == << <<32>>, <<32, 97, 32>>, <<10>>, <<97>>, <<97, 32>>, <<32, 97>>, <<97, 195, 160>>, <<195, 160, 32>>, <<32, 27, 32>> >>
 T(s) == [t |-> "text", s |-> s]
 Var(n) == [t |-> "var", name |-> n]
 Lit(v) == [t |-> "lit", v |-> v]
